@@ -3,12 +3,16 @@
 use crate::groups::Groups;
 
 pub mod c01;
+pub mod c02;
+pub mod c03;
+pub mod c04;
 pub mod c05;
 pub mod c05_loop;
 pub mod c09;
 pub mod c10;
 pub mod c11;
 pub mod c18;
+pub mod c19;
 pub mod twin;
 
 pub struct PropDef {
@@ -26,7 +30,7 @@ pub struct PropDef {
 }
 
 pub fn all() -> &'static [PropDef] {
-    &[c01::DEF, c05::DEF, c09::DEF, c10::DEF, c11::DEF, c18::DEF]
+    &[c01::DEF, c02::DEF, c03::DEF, c04::DEF, c05::DEF, c09::DEF, c10::DEF, c11::DEF, c18::DEF, c19::DEF]
 }
 
 /// Serde helper: u128 as decimal string (serde_json cannot read back large
